@@ -24,7 +24,9 @@ DBL_MAX = 1797693134862315708145274237317043567980705675258449965989174768031572
 TRUSTED = ["A-REAL: finite floats are mathematical reals with |x| <= DBL_MAX; inf/-inf/nan are explicit tagged values with IEEE comparison semantics",
            "numpy scalar model: np.integer / np.floating scalars are numbers that are not instances of int (float only for np.float64); "
            ".item() returns the equal Python number; iterating an ndarray yields numpy scalars",
-           "comprehension over a collection of arbitrary length = pointwise application of the body to a generic element (no cross-iteration state in this function)"]
+           "comprehension over a collection of arbitrary length = pointwise application of the body to a generic element (no cross-iteration state in this function)",
+           "container families: dict, Mapping that is not a dict, list, tuple, 1-d ndarray of dtype kind i/u/f/O/U/b; a member is an instance of exactly "
+           "the classes listed for its family (every other isinstance test answers False); ndarray.tolist() lists the same items in order"]
 NOT_DECIDED = "floating-point rounding inside numpy's own conversions; complex numbers and other exotic numeric types are outside the statement"
 
 NP_INT = ("np.integer", "np.int64", "np.number")
@@ -159,26 +161,42 @@ def containers(I):
     calls = []
     f = install(I, [0], calls)
     Q = "bluesky.utils:truncate_json_overflow"
-    kind = w.choose(["mapping", "sequence", "ndarray"], "container kind")
+    # the families of containers the statement speaks of ("any payload"): a dict, a Mapping that is not a dict (MappingProxyType, ChainMap,
+    # a user Mapping), a list, a tuple, a numpy array of any dtype kind; each is an instance of exactly the classes listed for it
+    kind = w.choose(["dict", "mapping-not-dict", "list", "tuple", "ndarray"], "container kind")
     k_star = opaque(I, "k*")
     v_star = opaque(I, "v*")
-    if kind == "mapping":
-        data = opaque(I, "data", isinstance={"Mapping": True, "Iterable": True, "str": False},
-                      methods={"items": lambda I_, o, a, k: GenericColl("items", (k_star, v_star), o)})
+    rp = {"replay": "utils.truncate_container", "kind": kind}
+    if kind in ("dict", "mapping-not-dict"):
+        data = opaque(I, "data", isinstance={"Mapping": True, "Iterable": True, "str": False, "dict": kind == "dict"}, isinstance_default=False,
+                      methods={"items": lambda I_, o, a, k: GenericColl("items", (k_star, v_star), o),
+                               "keys": lambda I_, o, a, k: GenericColl("list", k_star, o),
+                               "values": lambda I_, o, a, k: GenericColl("list", v_star, o)},
+                      iter_generic=lambda I_, o: GenericColl("list", k_star, o))
     else:
-        data = opaque(I, "data", isinstance={"Mapping": False, "Iterable": True, "str": False, "int": False, "float": False,
-                                             "integer": False, "floating": False},
+        attrs = {}
+        if kind == "ndarray":
+            dk = w.choose(["i", "u", "f", "O", "U", "b"], "dtype kind")
+            rp["dtype"] = dk
+            attrs = {"dtype": opaque(I, "dtype", attrs={"kind": dk}, isinstance_default=False), "ndim": 1}
+        data = opaque(I, "data", isinstance={"Mapping": False, "Iterable": True, "str": False, "list": kind == "list", "tuple": kind == "tuple",
+                                             "ndarray": kind == "ndarray", "Sequence": kind in ("list", "tuple")}, isinstance_default=False,
+                      attrs=attrs, methods={"tolist": lambda I_, o, a, k: GenericColl("list", v_star, o)},
                       iter_generic=lambda I_, o: GenericColl("list", v_star, o))
     out = I.call_value(f, data)
-    rp = {"replay": "utils.truncate_container", "kind": kind}
-    if kind == "mapping":
-        ok = (isinstance(out, GenericColl) and out.kind == "dict" and out.source is data and out.elem[0] is k_star
-              and len(calls) == 1 and calls[0][0] is v_star and out.elem[1] is calls[0][1])
-        w.check(f"{Q}#ensures[mapping: same keys, every value through the contract]", ok, rp)
+
+    def through_contract(coll_kind, elem):
+        """`out` is the pointwise image of `data`: built here from the contract's results, or obtained by applying the function's own
+        contract (induction hypothesis) to a view of the same items in the same order"""
+        if (isinstance(out, GenericColl) and out.kind == coll_kind and out.source is data and len(calls) == 1 and calls[0][0] is v_star
+                and (out.elem[1] if coll_kind == "dict" else out.elem) is calls[0][1] and (coll_kind != "dict" or out.elem[0] is k_star)):
+            return True
+        return any(r is out and isinstance(a, GenericColl) and a.source is data and a.elem is elem
+                   and a.kind == ("items" if coll_kind == "dict" else "list") for a, r in calls) and coll_kind == "list"
+    if kind in ("dict", "mapping-not-dict"):
+        w.check(f"{Q}#ensures[mapping: same keys, every value through the contract]", through_contract("dict", None), rp)
     else:
-        ok = (isinstance(out, GenericColl) and out.kind == "list" and out.source is data
-              and len(calls) == 1 and calls[0][0] is v_star and out.elem is calls[0][1])
-        w.check(f"{Q}#ensures[iterable: same length and order, every item through the contract]", ok, rp)
+        w.check(f"{Q}#ensures[iterable: same length and order, every item through the contract]", through_contract("list", v_star), rp)
 
 
 @task("truncate_json_overflow.twin", PROP, twin="twin:limit is 2**53")
